@@ -17,7 +17,7 @@ ANCHORS = ["decaylanguage.utils.utilities:DescriptorFormat.__enter__", "decaylan
            "decaylanguage.utils.utilities:DescriptorFormat.set_config", "decaylanguage.utils.utilities:DescriptorFormat.format_descriptor"]
 WORKERS = {"quick": 4, "thorough": 16}
 WTESTS = {"groups": ['descriptor_format'], "tests": ['tests/utils', 'tests/decay']}
-REQUIRED = {"history-run-with-warnings-as-errors": 50, "nesting-depth>=3": 50, "reused-object-sequentially": 50, "reentrant-object": 50, "object-created-before-set_config": 50,
+REQUIRED = {"rendering-abandoned-at-a-random-line:interrupted": 50, "history-run-with-warnings-as-errors": 50, "nesting-depth>=3": 50, "reused-object-sequentially": 50, "reentrant-object": 50, "object-created-before-set_config": 50,
             "leave-by-exception-at-depth>=2": 50, "enter-invalid-context": 50, "render": 500,
             "valid-pattern-with-repeated-placeholder": 20, "kept-format-handed-back": 20, "config-assigned-by-hand-keys-in-other-order": 20, "leave-by:KeyboardInterrupt": 20, "leave-by:GeneratorExit": 20, "leave-by:SystemExit": 20, "leave-by:_Custom": 20, "render:parser-descriptors": 100,
             **{f"invalid:{k}": 20 for k in ("missing-mother", "missing-daughters", "extra-named", "positional", "attribute", "index", "nested-in-spec", "second-only", "repeated-mother-no-daughters", "repeated-daughters-no-mother", "repeat-inside-spec-no-daughters", "blank-in-name", "blank-in-name-second", "tab-in-name", "empty-second", "empty-first")},
